@@ -225,6 +225,10 @@ def check_pairs_verdict(ver, cons_list, pairs, st):
             '<xs:any %s processContents="skip"/></xs:sequence></xs:complexType>'
             % (k, c1, k, k, c2, k, k, k, c1, k, c2, k, k, k, k, k, k, k, c2, k, k, k, k,
                k, c1, k, k, c2, k, k, k, k, k, c1, c2))
+        # union through an extension whose only wildcard comes from a referenced attribute group
+        body.append('<xs:complexType name="UG%d"><xs:complexContent><xs:extension base="t:B%d"><xs:attributeGroup '
+                    'ref="t:gb%d"/></xs:extension></xs:complexContent></xs:complexType><xs:element name="ug%d" '
+                    'type="t:UG%d"/>' % ((k,) * 5))
         # the operands on their own, declared AFTER the combinations that use them
         body.append('<xs:complexType name="IA%d"><xs:attributeGroup ref="t:ga%d"/></xs:complexType>'
                     '<xs:element name="ia%d" type="t:IA%d"/><xs:complexType name="IB%d"><xs:attributeGroup '
@@ -250,6 +254,16 @@ def check_pairs_verdict(ver, cons_list, pairs, st):
             got = verdict_set(s, 'u%d' % k, _inst_attr)
             if got != (s1 | s2):
                 out.append(rec('union_verdict', ver, 'attr', [c1, c2], fmt(s1 | s2), fmt(got)))
+        # the same union when the extension takes its wildcard from a referenced attribute group
+        st.case()
+        errs_g = _errors(s.types['UG%d' % k])
+        if errs_g:
+            if not (ver == '10' and _inexpressible(c1, c2)):
+                out.append(rec('union_verdict_group', ver, 'attr', [c1, c2], fmt(s1 | s2), 'schema error: %s' % errs_g[0][:200]))
+        else:
+            got = verdict_set(s, 'ug%d' % k, _inst_attr)
+            if got != (s1 | s2):
+                out.append(rec('union_verdict_group', ver, 'attr', [c1, c2], fmt(s1 | s2), fmt(got)))
         # intersection through attribute groups
         st.case()
         if ntv:
